@@ -681,8 +681,61 @@ def no_process_state(facts, res, subdir, R, determined=None):
     return len([v for v in res.violations if v["rule"] == R and v["key"].startswith("static-local:")])
 
 
+def basis_is_polynomial(facts, res, cls="FUnifRoots", R="C05.10.basis-polynomial"):
+    """the interpolation basis L_n and its derivative are polynomials in the evaluation point: in the functions of the roots class that take
+    the point (a floating parameter), no division has a denominator that depends on it (flow-insensitive dependence through the locals).
+    A denominator like `x - roots[m]` is singular at the interpolation nodes, which are valid particle positions (lattice inputs put particles
+    exactly on them); an exact-equality escape does not help for a point one rounding away from a node, where the factor 1/(x - node) is
+    ~1e15 and multiplies a value that should be ~0."""
+    n = 0
+    fns = [m for m in facts.methods_of(cls) if tbf.body(m) is not None and not m.get("inst") and any(re.search(r"\b(FReal|double|float|RealType)\b", p_.get("t", "")) for p_ in m["params"])]
+    if len(fns) < 2:
+        raise AnalysisBroken("%s: %d functions taking an evaluation point (L and dL confirmed by reading)" % (cls, len(fns)))
+    for m in fns:
+        body = tbf.body(m)
+        dep = set(p_["did"] for p_ in m["params"] if re.search(r"\b(FReal|double|float|RealType)\b", p_.get("t", "")))
+
+        def tainted(e):
+            return any(y.get("k") == "DeclRefExpr" and y.get("did") in dep for y in walk(e))
+        changed = True
+        while changed:
+            changed = False
+            for x in walk(body):
+                tgt = val = None
+                if x.get("k") == "VarDecl" and kids(x):
+                    tgt, val = x["did"], kids(x)[0]
+                elif x.get("k") in ("BinaryOperator", "CompoundAssignOperator") and x.get("op", "").endswith("=") and x.get("op") not in ("==", "!=", "<=", ">="):
+                    l0 = strip(kids(x)[0])
+                    while l0.get("k") in ("ArraySubscriptExpr",) and kids(l0):
+                        l0 = strip(kids(l0)[0])
+                    if l0.get("k") == "DeclRefExpr":
+                        tgt, val = l0.get("did"), kids(x)[1]
+                if tgt is not None and tgt not in dep and tainted(val):
+                    dep.add(tgt)
+                    changed = True
+        for x in walk(body):
+            den = None
+            if x.get("k") == "BinaryOperator" and x.get("op") == "/":
+                den = kids(x)[1]
+            elif x.get("k") == "CompoundAssignOperator" and x.get("op") == "/=":
+                den = kids(x)[1]
+            if den is None:
+                continue
+            n += 1
+            bad = tainted(den)
+            res.instance(R, "%s::%s@%d" % (cls, m["name"], x["l"][1]), facts.loc(x), "denominator `%s` depends on the evaluation point: %s" % (facts.ntext(den)[:40], bad))
+            if bad:
+                res.violation(R, tbf.rel(facts.path_of(x)), m["qname"], "point-dependent-divisor:%s" % m["name"], x["l"][1],
+                              "`%s`: the denominator depends on the evaluation point: the basis function is no longer evaluated as a polynomial and is singular where the denominator vanishes - for a particle on (or one rounding away from) an interpolation node of its leaf, e.g. a lattice input, the value is a huge factor times ~0 and the interpolated %s is wrong by orders of magnitude"
+                              % (facts.ntext(x)[:70], "force" if m["name"].startswith("d") else "value"))
+    return n
+
+
 def run(res, tier):
     facts = tbf.scan("core")
+    res.rule("C05.10 the interpolation basis (FUnifRoots::L, dL) is evaluated as a polynomial in the point: no denominator depends on the evaluation point")
+    nb = basis_is_polynomial(facts, res)
+    res.floor("C05.10", nb, 2, "divisions in the basis functions")
     res.units.append("umbrella TU 'core': FUnifKernel, FAbstractUnifKernel, FUnifM2LHandler, FFftwCore / FFftw, FUnifInterpolator, FUnifTensor / FInterpTensor")
     res.rule("C05.1 copies isolated: objects with operator-written scratch are held by value from the kernel down and deep-copied; shared objects are never written by operator-reachable code")
     res.rule("C05.2 no carried state: every scratch buffer is wholly written before a plan / anything reads it, in every operator-reachable function; no pointer to scratch escapes")
